@@ -302,6 +302,13 @@ class _Tr:
                 if key in sp.attr_params:
                     return f'p_{e.value.id}_{e.attr}', sp.attr_params[key]
             raise Unsupported(f'name {d}')
+        if isinstance(e, ast.Call) and isinstance(e.func, ast.Name) and e.func.id in ('min', 'max') and len(e.args) == 2 and not e.keywords and e.func.id not in env:
+            (a, ta), (b, tb) = self.expr(e.args[0], env), self.expr(e.args[1], env)
+            if ta != 'int' or tb != 'int':
+                raise Unsupported(f'{e.func.id} of non-int: {ast.unparse(e)}')
+            return f'({e.func.id} {a} {b})', 'int'
+        if isinstance(e, ast.Call) and _dotted(e.func) in sp.identity_calls and len(e.args) == 1 and not e.keywords:
+            return self.expr(e.args[0], env)
         if isinstance(e, ast.Call):
             got = self.inline_call(e, env)
             if got is not None:
